@@ -104,7 +104,7 @@ def step (s : DState) (line : String) : DState × String :=
     -- `Trie.Commit` + `NodeDatabase.Commit(root)` + `NewTrie(root)` (root decoded from its disk blob)
     let r := s.cur.reopenDisk H
     let root := (s.cur.commit H).1
-    ({ s with cur := r.1, ndb := ((s.ndb.insertAll (commitAttempts H s.cur)).commit root) }, showObs r.2)
+    ({ s with cur := r.1, ndb := ((s.ndb.insertAll (commitAttempts H s.cur)).commit iterFuel root) }, showObs r.2)
   | ["snap"] =>
     -- keep the current trie value, continue on a reopened one (`Commit` + `NewTrie(root, db)`)
     let r := s.cur.reopen H
